@@ -322,6 +322,19 @@ Lemma d2a_label_leaf_stale_refuted :
   real_get (snd (run_round4 e evs)) 1 = [1%positive] /\ real_get (snd (run e evs)) 1 = [].
 Proof. vm_compute. split; reflexivity. Qed.
 
+(* D14 (thorough-tier finding): h2 and h3 both list h4; the double claim is resolved by deleting
+   h2, but the deletion rebuilt h3 while h4 still pointed to h2, failed, and could never succeed:
+   h2 stayed in the view for ever and the view never became ready again, although the remaining
+   object h3 is a consistent forest.  Now the members are released first. *)
+Lemma d14_blocked_delete_refuted :
+  let e := mkEnv [] [] in
+  let evs := [EUpd (mkObj 2 1 [MHyper 4]); EUpd (mkObj 3 3 [MHyper 4; MHyper 2]); EDel 2; EDel 2]%positive in
+  forest_ok [mkObj 3 3 [MHyper 4; MHyper 2]]%positive = true /\
+  (s_ready (snd (run_round8 e evs)) = false /\ aget 2%positive (s_hn (snd (run_round8 e evs))) <> None) /\
+  (s_ready (snd (run e evs)) = true /\
+   exists i, aget 3%positive (s_hn (snd (run e evs))) = Some i /\ i_children i = [4%positive]).
+Proof. vm_compute. repeat split; try discriminate; try reflexivity. eexists. split; reflexivity. Qed.
+
 (* still open (known finding D7): on the repaired code a bad membership can stay unreported
    when the claimer's tier is not above the member's *)
 Lemma bad_membership_not_ready_refuted : exists evs,
@@ -339,11 +352,11 @@ Lemma rebuild_all_err e : forall l a,
   snd (fold_left (fun (acc : st * bool) k => let '(s0, e0) := acc in
          if (e0 : bool) then acc else
          let '(s1, e1) := rebuild_cache e s0 k in
-         if (e1 : bool) then (mark_failed 3 s1 k, true) else (unfail 3 s1 k, false)) l a) = true ->
+         if (e1 : bool) then (mark_failed 4 s1 k, true) else (unfail 4 s1 k, false)) l a) = true ->
   s_ready (fst (fold_left (fun (acc : st * bool) k => let '(s0, e0) := acc in
          if (e0 : bool) then acc else
          let '(s1, e1) := rebuild_cache e s0 k in
-         if (e1 : bool) then (mark_failed 3 s1 k, true) else (unfail 3 s1 k, false)) l a)) = false.
+         if (e1 : bool) then (mark_failed 4 s1 k, true) else (unfail 4 s1 k, false)) l a)) = false.
 Proof.
   induction l as [|k l IH]; intros a Ha; simpl; [exact Ha|].
   apply IH. destruct a as [s2 e2]. destruct e2; [exact Ha|].
@@ -353,9 +366,9 @@ Qed.
 Lemma freed_loop_err e nm : forall l a,
   (snd a = true -> s_ready (fst a) = false) ->
   snd (fold_left (fun (acc : st * bool) fr => let '(s0, e0) := acc in
-         if (e0 : bool) then acc else rebuild_all 3 e s0 (claimers (s_hn s0) fr nm)) l a) = true ->
+         if (e0 : bool) then acc else rebuild_all 4 e s0 (claimers (s_hn s0) fr nm)) l a) = true ->
   s_ready (fst (fold_left (fun (acc : st * bool) fr => let '(s0, e0) := acc in
-         if (e0 : bool) then acc else rebuild_all 3 e s0 (claimers (s_hn s0) fr nm)) l a)) = false.
+         if (e0 : bool) then acc else rebuild_all 4 e s0 (claimers (s_hn s0) fr nm)) l a)) = false.
 Proof.
   induction l as [|x l IH]; intros a Ha; simpl; [exact Ha|].
   apply IH. destruct a as [s0 e0]. destruct e0; [exact Ha|].
@@ -371,7 +384,7 @@ Proof.
   match type of H with (let '(_, _) := ?c in _) = _ => destruct c as [s4 err] end.
   destruct err.
   - inversion H; subst. reflexivity.
-  - pose proof (freed_loop_err e (o_name o) freed (unfail 3 s4 (o_name o), false)
+  - pose proof (freed_loop_err e (o_name o) freed (unfail 4 s4 (o_name o), false)
                   ltac:(simpl; discriminate)) as G.
     match type of H with (let '(_, _) := ?c in _) = _ => set (r := c) in H end.
     change (snd r = true -> s_ready (fst r) = false) in G.
